@@ -206,6 +206,9 @@ func sweepBody(cfg sweepCfg, prop string) vsched.Body {
 			sent = append(sent, sweepPayloads[s.pay])
 		}
 		vsched.GoNamed("app", func() {
+			// one options object (and so one pre-encoded frame buffer) per payload, reused by every send of
+			// that payload - the way an application broadcasts one pre-encoded packet to many recipients
+			preShared := map[int]*packet.Options{}
 			for _, s := range cfg.sends {
 				p := sweepPayloads[s.pay]
 				var data interface {
@@ -223,6 +226,10 @@ func sweepBody(cfg sweepCfg, prop string) vsched.Body {
 				case "compress":
 					opts = &packet.Options{Compress: true}
 				case "pre":
+					if o, ok := preShared[s.pay]; ok {
+						opts = o
+						break
+					}
 					// the frame a websocket/webtransport peer expects for this packet (as socket.io pre-encodes it)
 					var fd []byte
 					var fbin bool
@@ -237,6 +244,7 @@ func sweepBody(cfg sweepCfg, prop string) vsched.Body {
 					} else {
 						opts.WsPreEncodedFrame = types.NewStringBufferString(string(fd))
 					}
+					preShared[s.pay] = opts
 				}
 				rec.Sock.Send(data, opts, nil)
 			}
